@@ -33,7 +33,7 @@ def obs_equal(kind, a, b):
         return True
     if kind == "argv" and b is not None and b.startswith("argv=no"):
         return True                      # the word model does not cover this argument list
-    if kind in ("emit", "hist", "run", "orun", "fsh", "argv") and a is not None and b is not None and "=" in b:
+    if kind in ("emit", "hist", "run", "lrun", "orun", "fsh", "argv") and a is not None and b is not None and "=" in b:
         akeys = [t.split("=", 1)[0] for t in a.split(" ") if "=" in t]
         bkeys = [t.split("=", 1)[0] for t in b.split(" ") if "=" in t]
         at = [t for t in a.split(" ") if t.split("=", 1)[0] in bkeys and t.split("=", 1)[0] not in IGNORED_KEYS]
@@ -74,7 +74,7 @@ def compare(ctx, s, stage, signature_of, describe, nontrivial, oracle=None):
     signature_of(key, s) -> signature dict for a property failure on that case."""
     cases, impl, model, expect = s["cases"], s["impl"], s["model"], s["expect"]
     # "run" cases: the driver prints the reference semantics' verdict there (a specification, not a model of the code)
-    corr = [k for k in cases if k[0] not in ("run", "orun", "ren", "batrun") and not obs_equal(k[0], impl.get(k), model.get(k))]
+    corr = [k for k in cases if k[0] not in ("run", "lrun", "orun", "ren", "batrun") and not obs_equal(k[0], impl.get(k), model.get(k))]
     if oracle is None:
         fails = [(k, "expected %s" % expect[k]) for k in expect if impl.get(k) != expect[k]]
         checked = len(expect)
@@ -371,8 +371,32 @@ def run_c02(ctx, ck):
     ctx.cov["programs_on_which_every_hypothesis_of_the_whole_program_theorem_holds"] = FLAT_STATS.get("theorem", 0)
 
 
+def locale_oracle(k, s):
+    """strings with non-ASCII bytes: the script under the C locale (run) and under a UTF-8 locale (lrun) against the
+    reference semantics, which counts bytes as Go does"""
+    if k[0] not in ("run", "lrun"):
+        return False
+    spec = s["model"].get(k) or ""
+    if not spec.startswith("transpile=ok"):
+        return False
+    o = s["impl"].get(k) or ""
+    if obs_equal(k[0], o, spec):
+        return None
+    return "string operations under LC_ALL=%s differ from Go's byte semantics: expected %s" % ("C.UTF-8" if k[0] == "lrun" else "C", spec[:300])
+
+
 def run_c03(ctx, ck):
+    IGNORED_KEYS.add("flat"); IGNORED_KEYS.add("jout"); IGNORED_KEYS.add("jstatic")
     run_sem(ctx, ck, ["sem-slices"], [sem_oracle], 1200, 8000)
+    s = ck.run_stream(ctx, "strings-locale", 1)
+
+    def sig(k, s_):
+        t = k[1].split("#")
+        return {"class": t[1]} if len(t) > 1 else {}
+
+    compare(ctx, s, "strings with non-ASCII bytes under the C locale and under a UTF-8 locale against the reference semantics (bytes, as in Go)",
+            sig, describe_prog, lambda k, s_: k[0] in ("run", "lrun"), oracle=locale_oracle)
+    ctx.cov.setdefault("distribution", {}).update(s["meta"])
 
 
 def run_c04(ctx, ck):
